@@ -179,7 +179,7 @@ class C15(Check):
         "stratified grid: exit kind {return, sys.exit(0|1|3|text), ConnectionError, UDSException, RuntimeError, KeyboardInterrupt} x "
         "lifecycle point {setup before/after the base-class setup, main, teardown before/after the base-class teardown, ConnectionError also from inside it (closing the transport fails)} x command kind "
         "{plain script, scanner, UDS scanner} (every cell hit first), then seeded draws of {artifacts, database, lock, hooks} on/off, hook outcome "
-        "{absent, ok, exit 3, stderr}, log-consumer lag, database latency and a SIGINT at a virtual instant delivered through asyncio.Runner's handler. "
+        "{absent, ok, exit 3, stderr, runs for 1000 s}, a database whose teardown statement fails once, log records with non-ASCII / lone-surrogate text, log-consumer lag, database latency and a SIGINT at a virtual instant delivered through asyncio.Runner's handler. "
         "non-trivial = the run did not end by a plain return; distinct = (command kind, exit kind, point, resources, hook outcomes, where the SIGINT landed)."
     )
     assumptions = [
